@@ -288,7 +288,12 @@ def ok_values(b):
                     if core[0] == "call":
                         # a fallible step's own Result handed back: its success is the function's success
                         oks.append((dsite, payload(a), a))
-    return oks, others
+    # the same success value seen twice (a fallible step's Result matched and rebuilt as Ok(..)) is one success result
+    uniq = []
+    for o in sorted(oks, key=lambda o: o[2] is not None):
+        if not any(strip_sites(o[1]) == strip_sites(u[1]) for u in uniq):
+            uniq.append(o)
+    return uniq, others
 
 
 def success_deps(e):
